@@ -125,13 +125,12 @@ func (p *Parser) parseCreateView(orReplace, temporary bool) (*ast.CreateViewStat
 	}
 	p.advance() // Consume AS
 
-	// Parse the SELECT statement
-	if !p.isType(models.TokenTypeSelect) {
+	// Parse the query: SELECT ... or WITH ... SELECT ...
+	if !p.isType(models.TokenTypeSelect) && !p.isType(models.TokenTypeWith) {
 		return nil, p.expectedError("SELECT")
 	}
-	p.advance() // Consume SELECT
 
-	query, err := p.parseSelectWithSetOperations()
+	query, err := p.parseSubquery()
 	if err != nil {
 		return nil, goerrors.WrapError(
 			goerrors.ErrCodeInvalidSyntax,
@@ -239,13 +238,12 @@ func (p *Parser) parseCreateMaterializedView() (*ast.CreateMaterializedViewState
 	}
 	p.advance() // Consume AS
 
-	// Parse the SELECT statement
-	if !p.isType(models.TokenTypeSelect) {
+	// Parse the query: SELECT ... or WITH ... SELECT ...
+	if !p.isType(models.TokenTypeSelect) && !p.isType(models.TokenTypeWith) {
 		return nil, p.expectedError("SELECT")
 	}
-	p.advance() // Consume SELECT
 
-	query, err := p.parseSelectWithSetOperations()
+	query, err := p.parseSubquery()
 	if err != nil {
 		return nil, goerrors.WrapError(
 			goerrors.ErrCodeInvalidSyntax,
